@@ -39,7 +39,13 @@ fn is_sym_cont(c: char) -> bool {
 }
 
 pub fn tokenize(text: &str) -> Vec<Seen> {
+    tokenize_spans(text).0
+}
+
+/// the tokens, and for every number token its (start, end) position in characters
+pub fn tokenize_spans(text: &str) -> (Vec<Seen>, Vec<(usize, usize)>) {
     let cs: Vec<char> = text.chars().collect();
+    let mut spans = Vec::new();
     let mut out = Vec::new();
     let mut i = 0;
     let mut pending_negate = false;
@@ -86,6 +92,7 @@ pub fn tokenize(text: &str) -> Vec<Seen> {
                 }
             }
             out.push(Seen::Num { literal: cs[i..j].iter().collect(), negate: pending_negate });
+            spans.push((i, j));
             pending_negate = false;
             i = j;
         } else if c == '-' {
@@ -96,7 +103,38 @@ pub fn tokenize(text: &str) -> Vec<Seen> {
             i += 1;
         }
     }
-    out
+    (out, spans)
+}
+
+/// The one thing about layout C18 does promise implicitly: a matrix part is shown as the matrix it is.  If the text
+/// separates the entries of a matrix part of plain numbers into rows at all (a line break, a bracket, a bar or a
+/// semicolon between two entries), then it must do so after every `cols` entries and nowhere else.  A flat list
+/// gives no verdict.  `shapes`: (ordinal of the first entry among the numbers of the text, rows, columns).
+pub fn shape_mismatch(text: &str, shapes: &[(usize, usize, usize)]) -> Option<String> {
+    if shapes.is_empty() {
+        return None;
+    }
+    let cs: Vec<char> = text.chars().collect();
+    let (_, spans) = tokenize_spans(text);
+    for &(first, rows, cols) in shapes {
+        if first + rows * cols > spans.len() {
+            return None; // the number sequence itself is off: reported by compare()
+        }
+        let mut breaks = vec![];
+        for k in 1..rows * cols {
+            let gap: String = cs[spans[first + k - 1].1..spans[first + k].0].iter().collect();
+            if gap.contains(|c| matches!(c, '\n' | '[' | ']' | '│' | '|' | ';')) {
+                breaks.push(k);
+            }
+        }
+        let want: Vec<usize> = (1..rows).map(|r| r * cols).collect();
+        if !breaks.is_empty() && breaks != want {
+            return Some(format!(
+                "a {rows} x {cols} matrix part is laid out with row breaks after entries {breaks:?}; a {rows} x {cols} matrix has them after {want:?} (the entries are in the right order, the shape shown is not the part's)"
+            ));
+        }
+    }
+    None
 }
 
 /// Merge adjacent symbols of the expectation into runs, as they appear in a text.
